@@ -194,9 +194,21 @@ func targetURL(req *http.Request) *url.URL {
 }
 
 func (r *transport) RoundTrip(req *http.Request) (*http.Response, error) {
+	if req.Method == "" {
+		// "For client requests, an empty string means GET" (net/http): handled as the
+		// GET it is, on a shallow copy (the caller's request is not modified).
+		get := *req
+		get.Method = http.MethodGet
+		req = &get
+	}
 	urlKey := r.uk.URLKey(targetURL(req))
 
 	if !r.rmc.IsRequestMethodUnderstood(req) {
+		if internal.ParseCCRequestDirectives(req.Header).OnlyIfCached() {
+			// RFC 9111 §5.2.1.7: only a stored response or a 504 - and no stored response
+			// can answer this request (another method, or a range request).
+			return make504Response(req)
+		}
 		return r.handleUnrecognizedMethod(req, urlKey)
 	}
 
